@@ -339,7 +339,7 @@ fn tree_job(ctx: &Ctx, job: usize, iters: u64) -> Stats {
     let mut st = Stats::new();
     let mut rng = Rng::stream(ctx.seed, "C14.tree", job as u64);
     for it in 0..iters {
-        let pool: &[&str] = if it % 3 == 0 { &gen::FANCY_NAMES } else if it % 6 == 1 { &gen::MARK_NAMES } else { &gen::PLAIN_NAMES };
+        let pool: &[&str] = if it % 3 == 0 { &gen::FANCY_NAMES } else if it % 6 == 1 { gen::rare_pool(it / 16 as u64) } else { &gen::PLAIN_NAMES };
         let mut cfg = GenCfg::simple(&pool[..3], 4);
         cfg.allow_ref = true;
         cfg.binder_weight = 20;
@@ -413,6 +413,58 @@ fn cli_case(ctx: &Ctx, st: &mut Stats, text: &str, filter: Option<&str>, tag: &s
     let _ = std::fs::remove_dir_all(&dir);
 }
 
+/// `-p X -d X` (the same path, or a symbolic link to it): whichever export is written last, the
+/// file must hold ONE complete export — the diagram's or the parse tree's — not a mixture.
+fn aliased_exports_case(ctx: &Ctx, st: &mut Stats, text: &str, through_link: bool, tag: &str) {
+    let Ok(ast) = refsyn::parse_text(text) else { return };
+    if ast.has_kind(&|a| matches!(a, Ast::Ref(_))) {
+        return;
+    }
+    let names = ast.names_in_text_order();
+    if names.len() > 10 || Sem::new(&names).eval(&ast).is_err() {
+        return;
+    }
+    let (engine_tree, want) = match engine_eval(text.as_bytes(), None, 20_000_000, 100_000) {
+        EngineOut::Ok(ev) => match crate::conv::tt_of_named(&ev.result, &names) {
+            Ok(t) => (ev.ast, t),
+            Err(_) => return,
+        },
+        _ => return,
+    };
+    let dir = ctx.fresh_dir(&format!("c14-alias-{}", tag));
+    let _ = std::fs::create_dir_all(&dir);
+    let target = dir.join("both exports.dot");
+    let second = if through_link {
+        let l = dir.join("link.dot");
+        let _ = std::fs::write(&target, "");
+        let _ = std::os::unix::fs::symlink(&target, &l);
+        l
+    } else {
+        target.clone()
+    };
+    let args = vec![format!("--evaluate={}", text), "-p".to_string(), target.display().to_string(), "-d".to_string(), second.display().to_string()];
+    st.evals += 1;
+    st.bump("cli_runs_with_both_exports_into_one_file");
+    let out = cli::run(&ctx.bin("rsbdd"), &args, None, Some(&dir), Some((20_000_000, 100_000)), Duration::from_secs(60));
+    let case = || json!({"kind": "aliased-exports", "text": text, "through_link": through_link});
+    if out.timed_out || out.budget_exceeded() {
+        st.bump("out_of_budget(inconclusive case)");
+    } else if out.ok() {
+        let held = std::fs::read_to_string(&target).unwrap_or_default();
+        let parsed = dotread::parse(&held);
+        let is_diagram = parsed.as_ref().ok().and_then(|d| dotread::eval_bdd_dot(d, &names, "any").ok()).map_or(false, |(t, _)| t == want);
+        let is_tree = parsed.as_ref().ok().and_then(|d| dotread::term_of_parse_tree(d).ok()).map_or(false, |t| t == engine_tree);
+        if !is_diagram && !is_tree {
+            st.violate("c14.cli", "C14:cli:aliased-exports-mixed".into(), format!("rsbdd --evaluate=`{}` -p X -d {}: afterwards X holds neither the diagram's DOT nor the parse tree's ({} bytes):\n{}", text, if through_link { "<symbolic link to X>" } else { "X" }, held.len(), held.chars().take(1500).collect::<String>()), case());
+        } else {
+            st.bump(if is_diagram { "aliased_exports_file_holds_the_diagram" } else { "aliased_exports_file_holds_the_parse_tree" });
+        }
+    } else if out.crashed() {
+        st.violate("c14.cli", format!("C14:cli:run-failed:{}", out.panic_site()), format!("rsbdd {:?} failed: {}", args, out.status_string()), case());
+    }
+    let _ = std::fs::remove_dir_all(&dir);
+}
+
 fn cli_job(ctx: &Ctx, job: usize, iters: u64) -> Stats {
     let mut st = Stats::new();
     let mut rng = Rng::stream(ctx.seed, "C14.cli", job as u64);
@@ -429,6 +481,11 @@ fn cli_job(ctx: &Ctx, job: usize, iters: u64) -> Stats {
             _ => Some(rng.pick_str(&["any", "a"])),
         };
         cli_case(ctx, &mut st, &text, filter, &format!("{}-{}", job, i));
+        if i % 4 == 1 {
+            // both exports into one file: a long text with a small diagram and the other way round
+            let long_tree_small_diagram = format!("(({}) & false) | ({})", text, ["a", "x | y", "b & -b"][(i as usize / 4) % 3]);
+            aliased_exports_case(ctx, &mut st, if i % 8 == 1 { &text } else { &long_tree_small_diagram }, i % 16 >= 8, &format!("{}-{}", job, i));
+        }
     }
     st
 }
@@ -480,6 +537,7 @@ pub fn replay(ctx: &Ctx, _monitor: &str, case: &Value, st: &mut Stats) {
     match case.get("kind").and_then(|k| k.as_str()).unwrap_or("") {
         "tree" => check_tree_text(st, case.get("text").and_then(|t| t.as_str()).unwrap_or(""), "replay"),
         "cli" => cli_case(ctx, st, case.get("text").and_then(|t| t.as_str()).unwrap_or(""), case.get("filter").and_then(|f| f.as_str()), "replay"),
+        "aliased-exports" => aliased_exports_case(ctx, st, case.get("text").and_then(|t| t.as_str()).unwrap_or(""), case.get("through_link").and_then(|f| f.as_bool()).unwrap_or(false), "replay"),
         "bdd-unreduced" => unreduced_exports(st),
         "big-env" => {
             let mut c2 = ctx.clone();
